@@ -27,6 +27,7 @@ Suppressions:
 """
 
 import ast
+import numbers
 from collections.abc import Callable
 from pathlib import Path
 from typing import Any, Protocol, TypeVar
@@ -124,7 +125,7 @@ def require_number(name: str, value: object) -> None:
         name: Configuration key, for the message
         value: Configured value
     """
-    if not isinstance(value, (int, float)):
+    if not isinstance(value, numbers.Real):
         raise ValueError(f"{name} must be a number, got {value!r}")
 
 
